@@ -20,6 +20,7 @@ import setigen as stg
 from setigen import cadence as CAD
 
 ORDER = "ABCDEFGH"
+NEW_ORDER = "XYXYXYXY"
 NBADFRAMES = 7      # incompatible Frame objects in the pool (the rest are non-frames)
 
 
@@ -92,6 +93,10 @@ def job_step(kind, n, op):
                             res = cad.pop()
                         elif op == 'getitem':
                             res = cad[isym]
+                        elif op == 'set_order_same':
+                            cad.set_order(cad.order)
+                        elif op == 'set_order_new':
+                            cad.set_order(NEW_ORDER)
                     except (TypeError, AttributeError, IndexError) as e:
                         exc = e
                     o = dict(cad=cad, ref=ref, v=v, valid=valid, had=had, res=res, exc=exc, meta_before=meta_before, ob=ob, lab=lab)
@@ -207,6 +212,13 @@ def judge(kind, op, o, i, ok):
                     return f"{op}({i}): an already labelled frame was re-labelled to {lbl!r}"
             elif lbl not in [ORDER[k] for k in pos]:
                 return f"{op}({i}): unlabelled frame landed at position {pos} but got label {lbl!r} (expected {[ORDER[k] for k in pos]})"
+    if op in ('set_order_same', 'set_order_new'):
+        # re-labelling: afterwards every member carries the letter of its position, whatever it carried before
+        # (and whether or not the order string is the one the cadence already had)
+        want_o = ORDER if op == 'set_order_same' else NEW_ORDER
+        got_l = [f.metadata.get('order_label') for f in cad.frames]
+        if cad.order != want_o or got_l != list(want_o[:len(cad.frames)]):
+            return f"{op}: labels after set_order({want_o!r}) are {got_l} (order attribute {cad.order!r}), expected {list(want_o[:len(cad.frames)])}"
     if kind == 'ordered' and cad.frames and all('order_label' in f.metadata for f in cad.frames):
         # filtering goes by the label each frame carries, wherever the frame now sits
         for lbl in sorted({f.metadata['order_label'] for f in cad.frames} | {'Q'}):
@@ -301,6 +313,10 @@ def _replay_step_form(p, conv):
             o['res'] = cad.pop()
         elif op == 'getitem':
             o['res'] = cad[i]
+        elif op == 'set_order_same':
+            cad.set_order(cad.order)
+        elif op == 'set_order_new':
+            cad.set_order(NEW_ORDER)
     except (TypeError, AttributeError, IndexError) as e:
         o['exc'] = e
     msg = judge(p['kind'], op, o, int(i), ok)
@@ -340,7 +356,7 @@ def main():
     jobs = []
     for kind in ('plain', 'ordered'):
         for n in range(0, 4):
-            for op in OPS:
+            for op in OPS + (('set_order_same', 'set_order_new') if kind == 'ordered' else ()):
                 jobs.append(('job_step', (kind, n, op)))
         jobs.append(('job_select', (kind,)))
     ck.run_jobs('props.C18', jobs, timeout_s=1500)
